@@ -31,7 +31,7 @@ func c09Receivers(c *Ctx) []c09Recv {
 			},
 		} {
 			content := content
-			for vi := 0; vi < 3; vi++ {
+			for vi := 0; vi < 4; vi++ {
 				vi := vi
 				if c.Quick() && vi >= 1 && ci == 0 {
 					continue
@@ -57,6 +57,10 @@ func c09Receivers(c *Ctx) []c09Recv {
 					s.Push(content()...)
 					if vi == 2 {
 						s.SetPushPolicy(func(...any) error { return nil })
+					}
+					if vi == 3 {
+						// every option bit on, no closure: the flag must hold whatever the other bits say
+						s.SetNoNesting(true).SetParen(true).SetFold(true).SetLeadOnce(true).SetNoPadding(true).SetNegativeIndices(true).SetForwardIndices(true).SetMutex()
 					}
 					return s.SetReadOnly(true)
 				}})
@@ -222,6 +226,36 @@ func c09Exec(c *Ctx, rv c09Recv, calls []c09Call, count bool) {
 	}
 }
 
+// c09AsArgument hands a read-only Stack to methods of OTHER instances: it must not change either.
+func c09AsArgument(c *Ctx, rv c09Recv) {
+	ro, ok := rv.Mk().(stackage.Stack)
+	if !ok {
+		return
+	}
+	before := c09Key(ro, 0, false)
+	a := StackAlias(ro)
+	for form, arg := range map[string]any{"native": ro, "alias": a, "pointer": &ro, "pointer-to-alias": &a} {
+		w := stackage.Basic().Push("w1", "w2")
+		cd := stackage.Cond("k", stackage.Eq, "v")
+		c.Transitions.Add(4)
+		if p := noPanic(func() {
+			w.Transfer(arg)
+			w.IsEqual(arg)
+			w.Push(arg)
+			cd.SetExpression(arg)
+			_ = w.String()
+			w.Unmarshal()
+		}); p != "" {
+			c.Violation("panic:as-argument", fmt.Sprintf("read-only %s passed as %s argument: %s", rv.Name, form, p), nil, 0)
+			continue
+		}
+		if after := c09Key(ro, 0, false); after != before {
+			c.Violation("changed:as-argument:"+form, fmt.Sprintf("read-only %s changed after being passed (as %s) to Transfer / IsEqual / Push / SetExpression of other instances:\n before %s\n after  %s", rv.Name, form, before, after), nil, 0)
+			return
+		}
+	}
+}
+
 func callNames(cs []c09Call) []string {
 	var o []string
 	for _, c := range cs {
@@ -302,6 +336,9 @@ func init() {
 			}
 			c09Exec(c, jobs[i].rv, jobs[i].calls, true)
 		})
+		for _, rv := range recvs {
+			c09AsArgument(c, rv)
+		}
 		c.States.Store(int64(len(jobs)))
 		c.Traces.Store(int64(len(jobs)))
 		c.Evals.Store(c.Transitions.Load())
